@@ -41,7 +41,7 @@ pub const INFO: Info = Info {
            constant charge/rank columns, ion mobility present or all zero, two decoys only; a default-on family `nonfinite-feature-guarded` (fittable sets of 40..70 records in which 1..3 records carry poisson in {-inf,+inf,NaN,2.5,1.0} or \
            delta_rt_model / delta_ims_model in {+inf,-inf,negative,>1}: the guards of the feature transform must replace them, fit expected); variants that must fall back: one class empty, \
            NaN/inf in one field, ln_1p argument below -1, all records identical, single decoy (KDE bandwidth 0); non-trivial = both classes present. \
-           Default-on small streams of the known-finding families (exactly singular PSD x 1e9/1e12; overall mean orthogonal to the class-mean \
+           Default-on small streams of the known-finding families (exactly singular PSD x 1e9/1e12; non-singular SPD integer matrices x 1e5..1e9 on which the regulariser-made entry becomes the pivot; overall mean orthogonal to the class-mean \
            difference; all features of order 1e-9) and of two observation families (block-diagonal SPD: spurious solver failure; forced \
            fallback with poisson = -inf)",
     serial: false,
@@ -933,6 +933,21 @@ fn gen_finding_families(rng: &mut Rng, tier: Tier, emit: &mut dyn FnMut(Case)) {
         let a2: Vec<f64> = gram(rng, n2, n2 - 1, 0.0, true).iter().map(|x| x * s2).collect();
         let b2 = rand_rhs(rng, n2, 1, true);
         emit(Case::new(req_gauss(n2, 1, &a2, &b2)).tag("gauss").tag("known-finding-family").tag("singular-psd-huge-scale"));
+        // non-singular SPD integer matrices whose first elimination step leaves an exact zero next to a
+        // negative entry in column 1 (so the regulariser-made entry becomes the pivot), at scale 1e5..1e9
+        {
+            let sg = if rng.chance(1, 2) { 1.0 } else { -1.0 };
+            let c = 2.0 + rng.below(5) as f64;
+            let base: [f64; 9] = if rng.chance(1, 2) {
+                [1.0, 2.0, sg, 2.0, 6.0, 3.0 * sg, sg, 3.0 * sg, c]
+            } else {
+                [2.0, 3.0, sg, 3.0, 6.0, 2.0 * sg, sg, 2.0 * sg, c - 1.0]
+            };
+            let s3 = *rng.pick(&[1e5, 1e6, 1e9]);
+            let a3: Vec<f64> = base.iter().map(|x| x * s3).collect();
+            let b3 = rand_rhs(rng, 3, 1, true);
+            emit(Case::new(req_gauss(3, 1, &a3, &b3)).tag("gauss").tag("known-finding-family").tag("tiny-pivot"));
+        }
         // LDA with the overall mean orthogonal to the class-mean difference (mirror-symmetric classes)
         let k = 2 + rng.below(4);
         let mut f = Vec::new();
